@@ -1,284 +1,7 @@
 /-
-  C01 — end-to-end fidelity.  The layer theorems (C02, C04, C05, C10, C11, C12) composed:
-  what the user applies is what the device decodes; what the device reports is what a fresh client
-  exposes — through command encoding, V2 framing, V3 encryption, any TCP segmentation, reassembly
-  and response decoding, and with duplicated / unsolicited frames interleaved.
+  C01 — end-to-end fidelity: the layer compositions (`Props/C01Layers.lean`: apply / refresh through
+  command encoding, V2 framing, V3 encryption, any segmentation, reassembly, decoding; duplicates and
+  unsolicited frames) and the whole-stack capstone over the Session model (`Props/C01Stack.lean`).
 -/
-import Msmart.Props.C02
-import Msmart.Props.C03
-import Msmart.Props.C04
-import Msmart.Props.C05
-import Msmart.Props.C10
-import Msmart.Props.C11
-import Msmart.Props.C12
-
-set_option linter.unusedSimpArgs false
-set_option maxRecDepth 2000
-
-namespace Msmart.Props.C01
-open Msmart Msmart.Model Msmart.Lemmas Msmart.Crypto
-
-/-! ### apply: user state → wire → device -/
-
-/-- **C01 (apply, V2).** For every settable state, device id, timestamp and counter value: the
-    bytes `apply()` hands to the V2 transport are decoded by the independent implementation to the
-    same device id and a well-formed 0xAC control frame whose body the device reads (vendor layout)
-    as exactly the requested state. -/
-theorem e2e_apply_v2 (s : Spec.DevState) (hv : s.Valid) (id : Nat) (hid : id < 2 ^ 64) (ts : Bytes)
-    (hts : ts.length = 8) (counter : Nat) :
-    ∃ frame wire body,
-      ((Cmd.setState (setStateOfDev (C10.devOf s))).toBytes counter).1 = .ok frame ∧
-      packetEncode id ts frame = .ok wire ∧
-      Spec.V2.decode wire = some (id, frame) ∧
-      Spec.parseFrame frame = some ⟨0xAC, Spec.ftControl, body, ((counter + 1) % 256).toUInt8⟩ ∧
-      Spec.decodeSetState body = some s := by
-  obtain ⟨body, hb, hdec⟩ := C10.setstate_roundtrip s hv
-  have hbl : body.length = 24 := by
-    rw [C10.setStateBody_ok _ (by simp only [setStateOfDev, C10.devOf]; have := hv.2.2.2.1; omega)] at hb
-    cases hb; rfl
-  obtain ⟨frame, hframe⟩ := C12.command_emitted (.setState (setStateOfDev (C10.devOf s))) counter body hb (by omega)
-  obtain ⟨body', hb', _, hparse⟩ := C12.command_wellformed _ counter frame hframe
-  have : body' = body := by
-    have : (Cmd.setState (setStateOfDev (C10.devOf s))).body = .ok body := hb
-    rw [this] at hb'; cases hb'; rfl
-  subst this
-  have hfl : frame.length = 37 := by
-    have hp := hparse
-    unfold Cmd.toBytes at hframe
-    simp only [show (Cmd.setState (setStateOfDev (C10.devOf s))).body = .ok body' from hb] at hframe
-    unfold commandToBytes frameToBytes at hframe
-    simp only [Generated.frameHeaderLength, List.length_append, List.length_cons, List.length_nil, hbl] at hframe
-    split at hframe
-    · cases hframe
-    · cases hframe; simp [hbl]
-  have hfit : 56 + (encryptAes frame).length < 65536 := C02.small_frames_fit frame (by omega)
-  obtain ⟨wire, hw, hd⟩ := C02.v2_spec_decodes_encode frame ts id hts hid hfit
-  exact ⟨frame, wire, body', hframe, hw, hd, hparse, hdec⟩
-
-/-- **C01 (apply, V3).** … and on a V3 connection the same V2 packet, encrypted under ANY session
-    key with ANY 2-byte counter and pad bytes, is recovered by the independent V3 decoder. -/
-theorem e2e_apply_v3 (wire key padBytes : Bytes) (pid : Nat) (hp : pid < 65536)
-    (hpl : padBytes.length = v3Pad wire.length) (hsz : wire.length + v3Pad wire.length + 32 < 65536) :
-    ∃ pkt, encodeEncryptedRequest (some key) pid wire padBytes = .ok pkt ∧
-      Spec.V3.decodeEncrypted key pkt = some ⟨6, pid, wire⟩ :=
-  C05.v3_spec_decodes_request key wire padBytes pid hp hpl hsz
-
-/-! ### refresh: device state → wire → client attributes -/
-
-theorem st_b1 : ∀ p : Bool, bit (Spec.fl p 0x01) 0x01 = p := by decide
-theorem st_temp : ∀ t : Nat, t < 88 → 26 ≤ t → ∀ m : Nat, m < 8 → ∀ f : Bool,
-    stateTemp (((m % 8) * 32).toUInt8 ||| (if 34 ≤ t ∧ t ≤ 61 then (t / 2 - 16).toUInt8 else 0) ||| Spec.fl (t % 2 = 1) 0x10)
-      ((if 34 ≤ t ∧ t ≤ 61 then 0 else (t / 2 - 12).toUInt8) ||| Spec.fl f 0x20) = Int.ofNat t * 50 ∧
-    ((((m % 8) * 32).toUInt8 ||| (if 34 ≤ t ∧ t ≤ 61 then (t / 2 - 16).toUInt8 else 0) ||| Spec.fl (t % 2 = 1) 0x10) >>> 5).toNat % 8 = m ∧
-    bit ((if 34 ≤ t ∧ t ≤ 61 then 0 else (t / 2 - 12).toUInt8) ||| Spec.fl f 0x20) 0x20 = f := by
-  decide +kernel
-theorem st_fan : ∀ f, f < 256 → (f.toUInt8).toNat = f := by decide +kernel
-theorem st_swing : ∀ s, s < 16 → (((0x30 : UInt8) ||| (s % 16).toUInt8) &&& 0xF).toNat = s := by decide
-theorem st_b8 : ∀ (fo : Bool) (a : Nat), a < 3 →
-    bit (Spec.fl fo 0x80 ||| Spec.fl (a = 2) 0x40) 0x20 = false ∧
-    bit (Spec.fl fo 0x80 ||| Spec.fl (a = 2) 0x40) 0x40 = decide (a = 2) ∧
-    bit (Spec.fl fo 0x80 ||| Spec.fl (a = 2) 0x40) 0x80 = fo := by decide
-theorem st_b9 : ∀ (e p : Bool) (a : Nat), a < 3 →
-    bit (Spec.fl e 0x10 ||| Spec.fl p 0x20 ||| Spec.fl (a = 1) 0x08) 0x10 = e ∧
-    bit (Spec.fl e 0x10 ||| Spec.fl p 0x20 ||| Spec.fl (a = 1) 0x08) 0x20 = p ∧
-    bit (Spec.fl e 0x10 ||| Spec.fl p 0x20 ||| Spec.fl (a = 1) 0x08) 0x08 = decide (a = 1) := by decide
-theorem st_b10 : ∀ sl tu fa : Bool,
-    bit (Spec.fl sl 0x01 ||| Spec.fl tu 0x02 ||| Spec.fl fa 0x04) 0x01 = sl ∧
-    bit (Spec.fl sl 0x01 ||| Spec.fl tu 0x02 ||| Spec.fl fa 0x04) 0x02 = tu ∧
-    bit (Spec.fl sl 0x01 ||| Spec.fl tu 0x02 ||| Spec.fl fa 0x04) 0x04 = fa := by decide
-theorem st_disp : ∀ d : Bool, decide ((if d then (0x00 : UInt8) else 0x70) ≠ 0x70) = d := by decide
-theorem st_hum : ∀ h, h < 128 → ((h % 128).toUInt8 &&& 0x7F).toNat = h := by decide
-theorem st_freeze : ∀ f : Bool, bit (Spec.fl f 0x80) 0x80 = f := by decide
-theorem st_aux : ∀ a, a < 3 → (if decide (a = 2) = true then 2 else if decide (a = 1) = true then 1 else 0) = a := by decide
-
-/-- what a FRESH client exposes after decoding the status payload of a device in state `s` -/
-theorem status_roundtrip (s : Spec.DevState) (hv : s.Valid) (disp filt : Bool) (ir orr dg mid : UInt8) :
-    ∃ st, parseState (Spec.statusPayload s disp filt ir orr dg mid) = .ok st ∧
-      (({} : Dev).updateFromState st).power = s.power ∧
-      (({} : Dev).updateFromState st).tempCenti = (s.tempHalf : Int) * 50 ∧
-      st.mode = s.mode ∧
-      (({} : Dev).updateFromState st).fan = (s.fan : Int) ∧
-      st.swing = s.swing ∧
-      (({} : Dev).updateFromState st).eco = s.eco ∧
-      (({} : Dev).updateFromState st).turbo = s.turbo ∧
-      (({} : Dev).updateFromState st).sleep = s.sleep ∧
-      (({} : Dev).updateFromState st).fahrenheit = s.fahrenheit ∧
-      (({} : Dev).updateFromState st).freeze = some s.freeze ∧
-      (({} : Dev).updateFromState st).followMe = s.followMe ∧
-      (({} : Dev).updateFromState st).purifier = s.purifier ∧
-      (({} : Dev).updateFromState st).humidity = some s.humidity ∧
-      (({} : Dev).updateFromState st).auxMode = s.aux ∧
-      (({} : Dev).updateFromState st).displayOn = disp ∧
-      (({} : Dev).updateFromState st).filterAlert = filt := by
-  obtain ⟨power, beep, mode, t, fan, swing, eco, turbo, sleep, fahr, freeze, follow, pur, hum, aux⟩ := s
-  obtain ⟨hm, ht1, ht2, hf, hs, hh, ha⟩ := hv
-  simp only at hm ht1 ht2 hf hs hh ha
-  have e1 := st_b1 power
-  have e2 := st_temp t (by omega) ht1 mode hm filt
-  have e3 := st_fan fan hf
-  have e7 := st_swing swing hs
-  have e8 := st_b8 follow aux ha
-  have e9 := st_b9 eco pur aux ha
-  have e10 := st_b10 sleep turbo fahr
-  have e14 := st_disp disp
-  have e19 := st_hum hum hh
-  have e21 := st_freeze freeze
-  have eaux := st_aux aux ha
-  refine ⟨_, rfl, ?_⟩
-  simp only [Int.ofNat_eq_natCast] at e2
-  simp only [Spec.statusPayload, Dev.updateFromState, ↓reduceIte, e1, e2.1, e2.2.1, e2.2.2, e3, e7, e8.1, e8.2.1,
-    e8.2.2, e9.1, e9.2.1, e9.2.2, e10.1, e10.2.1, e10.2.2, e14, e21, Bool.false_or, List.length_cons, List.length_nil,
-    List.getElem?_cons_succ, List.getElem?_cons_zero, Option.map_some, e19, eaux, true_and, and_self, and_true]
-  first | done | decide | trivial
-
-/-- a spec-encoded V3 packet is a well-formed packet for the reassembly loop -/
-theorem v3_packet_wf (key data padBytes : Bytes) (ptype ctr : Nat) (hpl : padBytes.length = Spec.V3.padOf data.length)
-    (hsz : data.length + Spec.V3.padOf data.length + 32 < 65536) :
-    C04.WfPacket (Spec.V3.encodeEncrypted key ptype ctr data padBytes) := by
-  have hlen : (Spec.V3.encodeEncrypted key ptype ctr data padBytes).length =
-      8 + (data.length + Spec.V3.padOf data.length + 32) := by
-    have hb : (Spec.V3.be16 ctr).length = 2 := by simp [Spec.V3.be16]
-    simp only [Spec.V3.encodeEncrypted, List.length_append, C05.header_len, AES.cbcEncrypt_length,
-      C05.sha_len, hpl, hb]; omega
-  refine ⟨by simp [Spec.V3.encodeEncrypted, Spec.V3.header], by omega, ?_⟩
-  have hsf : sizeField (Spec.V3.encodeEncrypted key ptype ctr data padBytes) =
-      data.length + Spec.V3.padOf data.length + 32 := by
-    unfold sizeField
-    simp only [Spec.V3.encodeEncrypted, Spec.V3.header, Spec.V3.be16, List.cons_append, List.nil_append,
-      List.getD_cons_succ, List.getD_cons_zero]
-    rw [C05.u8nat _ (by omega), C05.u8nat _ (by omega)]; omega
-  rw [hlen, hsf]; omega
-
-/-- **C01 (refresh).** For every device state, check style, frame/protocol bytes, device id,
-    timestamp, header filler, session key, counter, pad bytes AND for every way TCP cuts the reply
-    into segments (any number of cuts): the V3 client's reassembly queues exactly the one packet,
-    which decrypts to the V2 packet, which decodes to the frame, which is decoded as a state
-    response whose values a fresh client exposes as exactly the device's state. -/
-theorem e2e_refresh_v3 (s : Spec.DevState) (hv : s.Valid) (disp filt : Bool) (ir orr dg mid ft proto : UInt8)
-    (style : Spec.CheckStyle) (id : Nat) (ts filler key padBytes : Bytes) (ctr : Nat)
-    (hts : ts.length = 8) (hfl : filler.length = 12)
-    (hpl : padBytes.length = Spec.V3.padOf
-      (Spec.V2.encode id ts filler (Spec.respFrame ft proto style (Spec.statusPayload s disp filt ir orr dg mid))).length)
-    (segs : List Bytes)
-    (hsegs : segs.flatten = Spec.V3.encodeEncrypted key 3 ctr
-      (Spec.V2.encode id ts filler (Spec.respFrame ft proto style (Spec.statusPayload s disp filt ir orr dg mid))) padBytes) :
-    ∃ pkt v2 frame st,
-      feedAll [] segs = ([pkt], []) ∧
-      processPacket (some key) pkt = .ok v2 ∧
-      packetDecode v2 = .ok frame ∧
-      construct frame = .ok (.state st) ∧
-      (({} : Dev).updateFromState st).power = s.power ∧
-      (({} : Dev).updateFromState st).tempCenti = (s.tempHalf : Int) * 50 ∧
-      (({} : Dev).updateFromState st).fan = (s.fan : Int) ∧
-      (({} : Dev).updateFromState st).auxMode = s.aux ∧
-      (({} : Dev).updateFromState st).displayOn = disp := by
-  generalize hP : Spec.statusPayload s disp filt ir orr dg mid = payload at *
-  have hplen : payload.length = 24 := by rw [← hP]; rfl
-  generalize hF : Spec.respFrame ft proto style payload = frame at *
-  have hflen : frame.length = 36 := by rw [← hF]; simp [Spec.respFrame, hplen]
-  generalize hW : Spec.V2.encode id ts filler frame = v2 at *
-  have hfit : 56 + (encryptAes frame).length < 65536 := C02.small_frames_fit frame (by omega)
-  have hv2len : v2.length = 56 + (encryptAes frame).length := by
-    rw [← hW]; exact C03.authentic_length id ts filler frame hts hfl hfit
-  have hel : (encryptAes frame).length = 48 := by rw [encryptAes_length, hflen]
-  have hsz : v2.length + Spec.V3.padOf v2.length + 32 < 65536 := by
-    rw [hv2len, hel]; decide
-  generalize hK : Spec.V3.encodeEncrypted key 3 ctr v2 padBytes = pkt at *
-  have hwf : C04.WfPacket pkt := by rw [← hK]; exact v3_packet_wf key v2 padBytes 3 ctr hpl hsz
-  obtain ⟨st, hst, h1, h2, _, h4, _, _, _, _, _, _, _, _, _, h14, h15, _⟩ := status_roundtrip s hv disp filt ir orr dg mid
-  rw [hP] at hst
-  refine ⟨pkt, v2, frame, st, ?_, ?_, ?_, ?_, h1, h2, h4, h14, h15⟩
-  · rw [C04.segmentation_independent segs [] C04.stable_nil, List.nil_append, hsegs]
-    have := C04.parse_complete_stream [pkt] (by intro p hp; simp at hp; subst hp; exact hwf) (by simp) [] rfl
-    simpa using this
-  · rw [← hK]; exact C05.v3_decode_spec_response key v2 padBytes ctr hpl hsz
-  · rw [← hW]; exact C02.v2_decode_spec_encode frame ts filler id hts hfl hfit
-  · rw [← hF]
-    obtain ⟨t, rfl⟩ : ∃ t, payload = 0xC0 :: t := by rw [← hP]; exact ⟨_, rfl⟩
-    rw [C11.construct_state_frame ft proto style t (by simp at hplen; omega), hst]; rfl
-
-/-- **C01 (refresh, V2).** The same without the V3 layer (one whole packet; see known finding D10
-    for segmented V2 replies). -/
-theorem e2e_refresh_v2 (s : Spec.DevState) (hv : s.Valid) (disp filt : Bool) (ir orr dg mid ft proto : UInt8)
-    (style : Spec.CheckStyle) (id : Nat) (ts filler : Bytes) (hts : ts.length = 8) (hfl : filler.length = 12) :
-    ∃ frame st,
-      packetDecode (Spec.V2.encode id ts filler (Spec.respFrame ft proto style (Spec.statusPayload s disp filt ir orr dg mid)))
-        = .ok frame ∧
-      construct frame = .ok (.state st) ∧
-      (({} : Dev).updateFromState st).power = s.power ∧
-      (({} : Dev).updateFromState st).tempCenti = (s.tempHalf : Int) * 50 ∧
-      (({} : Dev).updateFromState st).fan = (s.fan : Int) ∧
-      (({} : Dev).updateFromState st).auxMode = s.aux := by
-  generalize hP : Spec.statusPayload s disp filt ir orr dg mid = payload at *
-  have hplen : payload.length = 24 := by rw [← hP]; rfl
-  generalize hF : Spec.respFrame ft proto style payload = frame at *
-  have hflen : frame.length = 36 := by rw [← hF]; simp [Spec.respFrame, hplen]
-  have hfit : 56 + (encryptAes frame).length < 65536 := C02.small_frames_fit frame (by omega)
-  obtain ⟨st, hst, h1, h2, _, h4, _, _, _, _, _, _, _, _, _, h14, _, _⟩ := status_roundtrip s hv disp filt ir orr dg mid
-  rw [hP] at hst
-  refine ⟨frame, st, C02.v2_decode_spec_encode frame ts filler id hts hfl hfit, ?_, h1, h2, h4, h14⟩
-  rw [← hF]
-  obtain ⟨t, rfl⟩ : ∃ t, payload = 0xC0 :: t := by rw [← hP]; exact ⟨_, rfl⟩
-  rw [C11.construct_state_frame ft proto style t (by simp at hplen; omega), hst]; rfl
-
-/-! ### duplicated and unsolicited frames -/
-
-theorem updateFromState_idem (d : Dev) (st : StateResp) :
-    (d.updateFromState st).updateFromState st = d.updateFromState st := by
-  simp only [Dev.updateFromState]; rfl
-
-/-- a response list made of copies of one state response and of frames the device object ignores
-    (unknown ids, unsolicited capability frames with another frame type — decoded as plain responses) -/
-inductive Benign (st : StateResp) : Resp → Prop
-  | state : Benign st (.state st)
-  | base (i p) : Benign st (.base i p)
-  | caps (c) : Benign st (.caps c)
-
-/-- **C01 (interleaving).** Whatever duplicates of the state response and whatever ignorable frames
-    are interleaved in whatever order, the client ends in the same state as from the one response. -/
-theorem interleaving_harmless (st : StateResp) (rs : List Resp) (hall : ∀ r ∈ rs, Benign st r)
-    (hone : Resp.state st ∈ rs) (d : Dev) :
-    applyResponses d rs = d.updateFromState st := by
-  have key : ∀ (rs : List Resp) (d : Dev), (∀ r ∈ rs, Benign st r) →
-      applyResponses d rs = d ∨ applyResponses d rs = d.updateFromState st := by
-    intro rs
-    induction rs with
-    | nil => intro d _; left; rfl
-    | cons r t ih =>
-      intro d hall
-      have hr := hall r (by simp)
-      have ht := ih
-      simp only [applyResponses, List.foldl_cons] at ih ⊢
-      cases hr with
-      | state =>
-        right
-        rcases ih (d.updateState (.state st)) (fun x hx => hall x (by simp [hx])) with h | h
-        · rw [h]; rfl
-        · rw [h]; simp only [Dev.updateState]; exact updateFromState_idem d st
-      | base i p => exact ih (d.updateState (.base i p)) (fun x hx => hall x (by simp [hx]))
-      | caps c => exact ih (d.updateState (.caps c)) (fun x hx => hall x (by simp [hx]))
-  induction rs generalizing d with
-  | nil => cases hone
-  | cons r t ih =>
-    simp only [applyResponses, List.foldl_cons] at ih ⊢
-    have hr := hall r (by simp)
-    simp only [List.mem_cons] at hone
-    cases hr with
-    | state =>
-      rcases key t (d.updateState (.state st)) (fun x hx => hall x (by simp [hx])) with h | h
-      · simp only [applyResponses] at h; rw [h]; rfl
-      · simp only [applyResponses] at h; rw [h]; simp only [Dev.updateState]; exact updateFromState_idem d st
-    | base i p =>
-      rcases hone with h | h
-      · cases h
-      · exact ih (fun x hx => hall x (by simp [hx])) h (d.updateState (.base i p))
-    | caps c =>
-      rcases hone with h | h
-      · cases h
-      · exact ih (fun x hx => hall x (by simp [hx])) h (d.updateState (.caps c))
-
-/-! non-vacuity -/
-example : (⟨true, false, 2, 41, 102, 12, true, false, false, false, false, false, false, 40, 0⟩ : Spec.DevState).Valid := by
-  decide
-
-end Msmart.Props.C01
+import Msmart.Props.C01Layers
+import Msmart.Props.C01Stack
